@@ -107,6 +107,11 @@ func verifPair[T uint32 | uint64](mk func() Duplex[T], layout, na, nb int) {
 	if verifrt.NondetChoice("operand wrapped", 2) == 1 {
 		B = ThreadSafeDuplex(B)
 	}
+	if verifrt.NondetChoice("operand emptied", 2) == 1 {
+		// an operand that held values and is empty at the time of the call
+		B.Clear()
+		b = nil
+	}
 	op := verifrt.NondetChoice("op", 4)
 	verifApply(op, A, B)
 
